@@ -1,1 +1,78 @@
-fn main() { println!("mc"); }
+mod data;
+mod host;
+mod netmc;
+mod script;
+
+use script::*;
+
+struct NoMon;
+impl netmc::Monitor for NoMon {}
+
+fn demo_scripts() -> Vec<Script> {
+    let p3 = vec!["A".to_string(), "B".to_string(), "C".to_string()];
+    vec![
+        Script {
+            family: "demo",
+            name: "seq3".into(),
+            ast: seqs(vec![
+                call("A", "f1", vec![], sc("x")),
+                call("B", "f2", vec![var("x")], sc("y")),
+                call("C", "f3", vec![var("y")], sc("z")),
+            ]),
+            peers: p3.clone(),
+        },
+        Script {
+            family: "demo",
+            name: "dataflow4".into(),
+            ast: seqs(vec![
+                call("A", "f1", vec![], sc("x")),
+                par(call("B", "f2", vec![var("x")], sc("y")), call("C", "f3", vec![var("x")], sc("z"))),
+                call("A", "f4", vec![var("y"), var("z")], sc("w")),
+            ]),
+            peers: p3.clone(),
+        },
+        Script {
+            family: "demo",
+            name: "writers3_canon".into(),
+            ast: seqs(vec![
+                pars(vec![
+                    call("A", "f1", vec![], st("$s")),
+                    call("B", "f2", vec![], st("$s")),
+                    call("C", "f3", vec![], st("$s")),
+                ]),
+                canon("A", "$s", "#c"),
+                call("B", "obs", vec![Arg::Canon("#c".into())], sc("o")),
+            ]),
+            peers: p3.clone(),
+        },
+        Script {
+            family: "demo",
+            name: "writers3_fold".into(),
+            ast: seqs(vec![
+                pars(vec![
+                    call("A", "f1", vec![], st("$s")),
+                    call("B", "f2", vec![], st("$s")),
+                    call("C", "f3", vec![], st("$s")),
+                ]),
+                fold(Arg::Stream("$s".into()), "i", par(call("A", "visit", vec![var("i")], Out::None), I::Next("i".into()))),
+            ]),
+            peers: p3.clone(),
+        },
+    ]
+}
+
+fn main() {
+    host::install_panic_hook();
+    let args: Vec<String> = std::env::args().collect();
+    if args.len() > 1 && args[1] == "demo" {
+        for s in demo_scripts() {
+            for dup in [false, true] {
+                let w = netmc::World::new(&s, &["O"], "particle-1");
+                println!("{} :: {}", s.name, w.part.script);
+                let cfg = netmc::Cfg { dup, ..Default::default() };
+                let ex = netmc::explore(w, &cfg, &mut NoMon);
+                println!("  dup={dup} {:?}", ex.stats);
+            }
+        }
+    }
+}
